@@ -104,7 +104,7 @@ package baseorbitdb
 // Open: a local-only open of a database that is not known locally is refused before anything is fetched or
 // created; an invalid address is refused unless creation is requested together with a store type.
 //@ func (*orbitDB).Open
-//@   props C14
+//@   props C14 C03
 //@   flag nilcalls
 //@   requires o.logger != nil && o.cache != nil
 //@   ghost S0 := storesCreated(o)
